@@ -372,14 +372,28 @@ impl<'de, R: Reader<'de>> Deserializer<R> {
             let json = self.parser.read.as_u8_slice();
 
             // get n to check trailing characters in later
-            let n = if cfg.utf8_lossy && self.parser.read.next_invalid_utf8() != usize::MAX {
+            let (n, parsed_len) = if cfg.utf8_lossy
+                && self.parser.read.next_invalid_utf8() != usize::MAX
+            {
                 // repr the invalid utf8, not need to care about the invalid UTF8 char in non-string
                 // parts, it will cause errors when parsing.
-                val.parse_with_padding(String::from_utf8_lossy(json).as_bytes(), cfg)?
+                let repaired = String::from_utf8_lossy(json);
+                (
+                    val.parse_with_padding(repaired.as_bytes(), cfg)?,
+                    repaired.len(),
+                )
             } else {
-                val.parse_with_padding(json, cfg)?
+                (val.parse_with_padding(json, cfg)?, json.len())
             };
             self.parser.read.eat(n);
+            if n > parsed_len {
+                // the root value only ended inside the padding (`x"x`): the input stops in the
+                // middle of a string. Report it here (as `from_str` does through its trailing
+                // check) and leave the reader at the end of the input.
+                let err = self.parser.error(ErrorCode::EofWhileParsing);
+                self.parser.read.set_index(json.len());
+                return Err(err);
+            }
         } else {
             let shared = unsafe {
                 if self.shared.is_none() {
